@@ -26,6 +26,13 @@ MUTS = [
  ('matcher-error-still-writes', 'snaps/matchJSON.go', '\t\thandleError(t, s.String())\n\t\treturn\n\t}\n\n\tsnapshot := takeJSONSnapshot(c, j)', '\t\thandleError(t, s.String())\n\t}\n\n\tsnapshot := takeJSONSnapshot(c, j)', ['C17','C20']),
  ('clean-ignores-standalone-registry', 'snaps/clean.go', '\t\t\tif registeredStandaloneTests.Has(snapPath) {\n\t\t\t\tcontinue\n\t\t\t}\n', '', ['C07']),
  ('sort-lexicographic', 'snaps/clean.go', '\tif natural.Less(a, b) {\n\t\treturn -1\n\t}', '\tif a < b {\n\t\treturn -1\n\t}\n\t_ = natural.Less', ['C10']),
+ ('summary-swaps-added-updated', 'snaps/clean.go', 'printEvent(&s, colors.Green, updateSymbol, "added", testEvents[added])\n\tprintEvent(&s, colors.Green, updateSymbol, "updated", testEvents[updated])', 'printEvent(&s, colors.Green, updateSymbol, "added", testEvents[updated])\n\tprintEvent(&s, colors.Green, updateSymbol, "updated", testEvents[added])', ['C20']),
+ ('clean-ignores-count', 'snaps/clean.go', 'count, _ := strconv.Atoi(flag.Lookup("test.count").Value.String())', 'count, _ := strconv.Atoi(flag.Lookup("test.count").Value.String())\n\tcount = 1', ['C09','C07']),
+ ('walk-hassuffix-snap', 'snaps/clean.go', '!strings.Contains(content.Name(), snapsExt)', '!strings.HasSuffix(content.Name(), snapsExt)', ['C09']),
+ ('skipf-not-tracked', 'snaps/skip.go', 'func Skipf(t testingT, format string, args ...any) {\n\tt.Helper()\n\n\ttrackSkip(t)', 'func Skipf(t testingT, format string, args ...any) {\n\tt.Helper()\n', ['C08','C20']),
+ ('error-not-counted', 'snaps/snapshot.go', '\tt.Error(err)\n\ttestEvents.register(erred)', '\tt.Error(err)', ['C20']),
+ ('yaml-not-escaped', 'snaps/matchYAML.go', 'return escapeEndChars(string(b))', 'return string(b)', ['C01','C04']),
+ ('sort-never', 'snaps/clean.go', '\t\topt.Sort && !isCI,', '\t\tfalse && opt.Sort && !isCI,', ['C10']),
  ('added-log-twice', 'snaps/matchYAML.go', '\t\tt.Log(addedMsg)\n\t\ttestEvents.register(added)', '\t\tt.Log(addedMsg)\n\t\tt.Log(addedMsg)\n\t\ttestEvents.register(added)', ['C20']),
 ]
 def sh(cmd, **kw):
